@@ -38,7 +38,7 @@ def endpoint_stage(rep, tier, work, mode):
         why = "+".join(sorted(b["why"]))
         rep.violation(f"endpoint-{mode}:{why}",
                       {"endpoint": True, "mode": mode, "seed": seed(), "run": r[0], "rejected_event": rows[b["line"] - 1], "why": b["why"],
-                       "trace": [e for e in r if e["a"] != "Cyc"][:200], "cycles_in_run": sum(1 for e in r if e["a"] == "Cyc")},
+                       "trace": r[:20000], "cycles_in_run": sum(1 for e in r if e["a"] == "Cyc")},
                       f"control endpoint in mode {mode}, run {r[0].get('k')}: {why} (after {rows[b['line'] - 1]})")
     return {f"endpoint_{mode}_runs": n, f"endpoint_{mode}_events": len(rows), f"endpoint_{mode}_pauses": verdict["pauses"],
             f"endpoint_{mode}_stop_notifications": verdict["stops"], f"endpoint_{mode}_rejected": len(verdict["bad"]),
